@@ -40,9 +40,9 @@ def run(tier, seed):
             seen.add(c["text"])
             cases.append(c)
     inp, out = os.path.join(d, "cases.ndjson"), os.path.join(d, "out.ndjson")
-    nv.write_ndjson(inp, [{"id": i, "exprs": [c["text"]]} for i, c in enumerate(cases)])
+    nv.write_ndjson(inp, [{"id": i, "shown": True, "exprs": [c["text"]]} for i, c in enumerate(cases)])
     nv.harness("nv-units", ["eval", "--cases", inp, "--out", out])
-    results = nv.read_ndjson_text(open(out).read())
+    results = nv.read_ndjson_text(open(out, encoding="utf-8").read())
     classes = {}
     for c, r in zip(cases, results):
         rep.add("evaluations", 1)
@@ -52,13 +52,18 @@ def run(tier, seed):
             rep.violation({"kind": "evaluation-failed", "expr": c["text"], "outcome": o["outcome"], "msg": o.get("msg", "")[:200]})
             continue
         want_val, want_vec = uc.eval_den(c["den"], factors)
-        got_val, got_vec = uc.impl_base(o["raw"])
-        if got_vec != want_vec and got_val != 0.0:
-            rep.violation({"kind": "base-unit-vector", "expr": c["text"], "impl": {k: str(v) for k, v in got_vec.items()},
-                           "spec": {k: str(v) for k, v in want_vec.items()}})
-        elif not uc.rel_close(got_val, want_val, REL):
-            rep.violation({"kind": "magnitude", "expr": c["text"], "impl": got_val, "spec": want_val,
-                           "rel_err": abs(got_val - want_val) / max(abs(want_val), 1e-300)})
+        # both the computed (raw) value and the displayed result of the same expression
+        for which in ("raw", "shown"):
+            if which == "shown" and (o.get("shown_outcome") != "ok" or not o.get("shown")):
+                rep.violation({"kind": "display-failed", "expr": c["text"], "outcome": o.get("shown_outcome"), "msg": (o.get("shown_msg") or "")[:160]})
+                continue
+            got_val, got_vec = uc.impl_base(o[which])
+            if got_vec != want_vec and got_val != 0.0:
+                rep.violation({"kind": "base-unit-vector", "which": which, "expr": c["text"], "impl": {k: str(v) for k, v in got_vec.items()},
+                               "spec": {k: str(v) for k, v in want_vec.items()}})
+            elif not uc.rel_close(got_val, want_val, REL):
+                rep.violation({"kind": "magnitude", "which": which, "expr": c["text"], "impl": got_val, "spec": want_val, "displayed": o[which]["text"],
+                               "rel_err": abs(got_val - want_val) / max(abs(want_val), 1e-300)})
     rep.add("distinct_nontrivial", sum(n for k, n in classes.items() if k != "single"))
     rep.set("classes", classes)
     rep.set("unit_table", {"units": len(units), "written_forms": len(forms)})
